@@ -81,7 +81,24 @@ def units(tier):
         r = unit_k_calc()
         U.must_fail_twin(r, "vacuity.must_fail_twin", lambda: unit_k_calc(twin=True))
         return r
-    return [("C01.k_calc", kc)]
+    from props import c01_more as M
+    us = [("C01.k_calc", kc)]
+    def wrap(uid, f):
+        def g():
+            r = f()
+            if not any(o.status == FAILED for o in r.obligations):
+                U.must_fail_twin(r, "vacuity.must_fail_twin", lambda: f(twin=True))
+            return r
+        us.append((uid, g))
+    wrap("C01.add_other_logk.scaled_addition", M.unit_add_other_logk)
+    wrap("C01.iap_logk_pairing", M.unit_iap_logk_pairing)
+    wrap("C01.build_model.prescribed_mole_balance_used_at_both_sites", M.unit_species_list_site)
+    from props import c01_model as MM
+    wrap("C01.molalities.mass_action", MM.unit_molalities)
+    wrap("C01.sum_species.totals_charge_alkalinity", MM.unit_sum_species)
+    wrap("C01.saturation_index.SI==IAP-logK", lambda twin=False: M.unit_si_readout("saturation_index", twin))
+    wrap("C01.saturation_ratio.SI==IAP-logK", lambda twin=False: M.unit_si_readout("saturation_ratio", twin))
+    return us
 
 
 def run(tier, seed, only, jobs):
